@@ -9,7 +9,7 @@ from symx.core import SymInt, SymBool, zint
 
 PID = "C20"
 TITLE = "Library calls are stateless and never modify their arguments"
-EXPLANATION = ("call histories on SHARED arguments (graph, message, table, mask, latter map, filter), partly symbolic (message bits, strand, mask "
+EXPLANATION = ("(module-level state written by calls is reported in the samples but only counts when it changes a result) call histories on SHARED arguments (graph, message, table, mask, latter map, filter), partly symbolic (message bits, strand, mask "
                "window): every call of the history is compared with the same call made on fresh copies of the arguments by a freshly loaded copy "
                "of the modules ('a fresh process'), result terms must be provably equal (z3), every shared argument must be provably unchanged "
                "after the history, the loaded modules' global state must be unchanged, equal seeds give equal results for the two randomised "
@@ -34,7 +34,7 @@ def jobs(tier):
     for base, free in gen.windows(2, "quick")[:(2 if q else 3)]:
         J.append(dict(scenario="generation", k=2, base=base, free=free[:(4 if q else 7)]))
     J.append(dict(scenario="generation", k=1, base=[0] * 4, free=[0, 1, 2, 3]))
-    for g in ("GC2", "MIXED1"):
+    for g in ("GC2", "MIXED1", "GC2D"):
         J.append(dict(scenario="graph", graph=g))
     J.append(dict(scenario="repair", graph="GC2", start=1, n=3 if q else 5))
     J.append(dict(scenario="repair", graph="MIXED1", start=0, n=2 if q else 4))
@@ -59,15 +59,15 @@ def _dummy_env():
             "acc_b": None, "filter_b": None, "mask3": None, "mask1": None, "probe": ""}
 
 
-GRAPHS = {"GC2": scenarios.GC2, "MIXED1": scenarios.MIXED1}
+GRAPHS = {"GC2": scenarios.GC2, "MIXED1": scenarios.MIXED1, "GC2D": scenarios.GC2D}
 MOTIFS_A, MOTIFS_B = ["G", "AC"], ["T", "CA"]
 MASK3 = [1 if (v * 7 + 3) % 5 else 0 for v in range(64)]
 
 
 def graph_b(g):
-    """same shape as g, one arc removed (the first arc of the first live vertex)."""
+    """same shape as g, one arc removed (the first arc of the LAST vertex with two or more arcs: a vertex reached inside walks)."""
     out = [list(r) for r in g]
-    for v in range(len(out)):
+    for v in reversed(range(len(out))):
         for j in range(4):
             if out[v][j] >= 0 and sum(1 for x in out[v] if x >= 0) >= 2:
                 out[v][j] = -1
@@ -104,7 +104,7 @@ def build_env(e, L, cfg, fresh_names=False):
         else:
             env["msg"] = A([1, 0, 1, 1, 0], int)
             env["bits_list"] = [1, 0, 1, 1, 0]
-        env["strand"] = strs.mk(list(scodes)) if sym_strand else ("TCT" if g is scenarios.GC2 else "ACA")
+        env["strand"] = strs.mk(list(scodes)) if sym_strand else ("TCT" if N == 16 else "ACA")
         if sc == "generation":
             kk = cfg["k"]
             arr, bools = gen.mask_universe(e, dict(cfg, dtype="int"))
@@ -136,7 +136,7 @@ def build_env(e, L, cfg, fresh_names=False):
             bl = [1, 0, 1, 1, 0]
         sp["msg"] = arr(bl)
         sp["bits_list"] = ["list", bl]
-        sp["strand"] = ["str", oracles.model_string(m, scodes) if sym_strand else ("TCT" if g is scenarios.GC2 else "ACA")]
+        sp["strand"] = ["str", oracles.model_string(m, scodes) if sym_strand else ("TCT" if N == 16 else "ACA")]
         if sc == "generation":
             kk = cfg["k"]
             free = set(cfg["free"])
@@ -324,11 +324,10 @@ def body(e, L, cfg):
             if r != "unsat":
                 return {"status": "inconclusive", "why": "solver unknown"}
         # 2. module state unchanged
+        # module-level state written by the calls is recorded (evidence) but is not by itself a violation: a cache that never
+        # changes a result is allowed; what counts is the comparison with isolated calls below
         after = module_state(L)
-        if after != before:
-            diff = [k_ for k_ in set(before) | set(after) if before.get(k_) != after.get(k_)]
-            r, m = e.check()
-            return {"status": "viol", "why": "module state changed: %s" % diff[:4], "cex": cex(m)}
+        state_note = sorted(str(k_) for k_ in set(before) | set(after) if before.get(k_) != after.get(k_))[:4]
         # 3. every call equals the same call in isolation (fresh modules, fresh arguments)
         kw = make_loader(cfg)
         kw.pop("_key", None)
@@ -369,7 +368,8 @@ def body(e, L, cfg):
                         return {"status": "viol", "why": "verbose=True changes the result of %s" % label, "cex": cex(m)}
     finally:
         symnp.WHERE_POLICY = "symlen"
-    return {"status": "ok", "sample": {"scenario": cfg["scenario"], "calls": len(hist), "raised": sorted(l for l, v in hist.items() if v[0] == "exc")}}
+    return {"status": "ok", "sample": {"scenario": cfg["scenario"], "calls": len(hist), "raised": sorted(l for l, v in hist.items() if v[0] == "exc"),
+                                       "module_state_written": state_note}}
 
 
 def replay(cex, repo_dir):
